@@ -2,7 +2,7 @@
 `struct LineMap`, `enum CodeUnitsDiff` and LineMap::{last_line, pos_for_line_col, line_col_for_pos, end_col_for_line},
 cut verbatim from crates/glas/src/vfs.rs, with
 
-  R23  `for &(A, B) in X {`  ->  `for verif_it in X { let (A, B) = *verif_it;`
+  R23  `for &(A, B) in X {`  (or `for (A, B) in X.iter().copied() {`)  ->  `for verif_it in X { let (A, B) = *verif_it;`
        (the definition of an irrefutable reference pattern in a `for`; the element type is Copy.  Verus: "ref patterns")
   R24  `RECV.partition_point(|&I| E)`  ->  `verif_partition_point(&RECV, |I| E)`
        (external_body helper whose body is `s.partition_point(|&it| f(it))`; assumed contract: the standard library's
@@ -39,8 +39,12 @@ def rewrite_for_refpat(body):
     """R23"""
     n = 0
     rx = re.compile(r'\bfor\s+&\s*(\([^()]*\))\s+in\s+([^{}]+?)\s*\{')
+    # R23b: `for (A, B) in X.iter().copied() {` - the same loop written with the Copy adapter
+    rxb = re.compile(r'\bfor\s+(\([^()]*\))\s+in\s+([\w\.]+?)\s*\.\s*iter\s*\(\s*\)\s*\.\s*copied\s*\(\s*\)\s*\{')
     while True:
         mm, mask = _first_code_match(rx, body)
+        if not mm:
+            mm, mask = _first_code_match(rxb, body)
         if not mm:
             return body, n
         body = body[:mm.start()] + 'for verif_it in %s { let %s = *verif_it;' % (mm.group(2).strip(), ' '.join(mm.group(1).split())) + body[mm.end():]
